@@ -271,6 +271,39 @@ def run_integrated(case):
                 s.sleep(3.0)
                 if rnd == 1 and case['mode'] in ('ro', 'ro+rw') and _dirstate(d1) != before:
                     out.fail('cache:ro-written', '%s: read-only cache directory changed during the connection' % label)
+            if case.get('third') and case['mode'] == 'rw':
+                # another firmware (other tables) whose checksums are bit-level relatives of the cached ones connects with the same
+                # cache directory: it must end up with ITS tables
+                from vlib.simcf import SimDevice
+                M = 0xFFFFFFFF
+                rel = {'neg': lambda c: (-c) & M, 'flip-top': lambda c: c ^ 0x80000000, 'low31': lambda c: c & 0x7FFFFFFF, 'swap16': lambda c: ((c << 16) | (c >> 16)) & M}[case['third']]
+                t3 = dict(case['toc'], tshift=(case['toc']['tshift'] + 3) % 10, nlog=case['toc']['nlog'] + 1, nparam=case['toc']['nparam'] + 1)
+                t3['log_crc'], t3['param_crc'] = rel(spec['log_crc']), rel(spec['param_crc'])
+                if len({t3['log_crc'], t3['param_crc'], spec['log_crc'], spec['param_crc']}) == 4:
+                    spec3 = c03_toc.build_spec(t3)
+                    env.world.device = SimDevice(spec3)
+                    cf, rec = cfharness.make_cf(env, rw_cache=d1)
+                    lbl3 = '%s, then a device with checksums %08x/%08x (%s)' % (label, spec3['log_crc'], spec3['param_crc'], case['third'])
+
+                    def on_connected3(uri, cf=cf):
+                        if cf.log.toc is None:
+                            out.fail('cache:log-table-missing', lbl3)
+                        else:
+                            c03_toc._compare(out, 'log', cf.log.toc, spec3['log_toc'], lbl3)
+                        c03_toc._compare(out, 'param', cf.param.toc, spec3['param_toc'], lbl3)
+                    cf.connected.add_callback(on_connected3)
+                    try:
+                        ok = cfharness.connect(env, cf, rec, wait_for='connected', timeout=60.0, step=0.5)
+                    except (Deadlock, Horizon) as e:
+                        out.fail('cache:connect-hang', '%s: %s' % (lbl3, repr(e)[:300]))
+                        return out
+                    if not ok:
+                        out.fail('cache:connection-failed:related-checksum', '%s: events %r' % (lbl3, rec.names()[-5:]))
+                        return out
+                    s.sleep(0.5)
+                    cf.close_link()
+                    s.sleep(3.0)
+                    out.feat('related-checksum-' + case['third'])
             if s.deaths:
                 out.fail('cache:thread-died:' + s.deaths[0][1][:60], s.deaths[0][2][-500:])
             downloaded = any(ch == 0 and port in (2, 5) and d[0] in (0, 2) for t, port, ch, d, c in env.world.links[1].tx)
@@ -292,8 +325,12 @@ def integrated_case(draw):
     dmg = {'kind': kind}
     if kind == 'truncate':
         dmg['cut'] = draw(st.lists(st.integers(0, 4000), min_size=1, max_size=2))
-    return {'toc': t, 'collide': draw(st.sampled_from([False, False, True])), 'damage': dmg, 'mode': draw(st.sampled_from(['rw', 'ro', 'ro+rw'])),
-            'schedule': t['schedule']}
+    if draw(st.booleans()):
+        # checksums with the top bit set (and their relatives) matter for signed/unsigned slips
+        t['log_crc'] = draw(st.sampled_from([0xA112EDCC, 0x80000000, 0xFFFFFFFF, 0x8BADF00D, 0x9E3779B9]))
+        t['param_crc'] = draw(st.sampled_from([0xC0FFEE11, 0x80000001, 0xFFFFFFFE, 0xDEADBEEF, 0xB7E15162]))
+    return {'toc': t, 'collide': draw(st.sampled_from([False, False, True])), 'damage': dmg, 'mode': draw(st.sampled_from(['rw', 'rw', 'ro', 'ro+rw'])),
+            'schedule': t['schedule'], 'third': draw(st.sampled_from([None, 'neg', 'neg', 'flip-top', 'low31', 'swap16']))}
 
 
 def subchecks(tier):
